@@ -33,7 +33,12 @@ LEVEL_NOTE = ("Proved about the MODEL of the queue only; the C++ is connected to
               "during which the graph audit is off) and endpoints >= 1 away from shapes. A stale route is put in the "
               "known class not-rerouted-fewer-bends-via-new-vertex only if segmentPenalty > 0, the fresh route has no "
               "more bends and turns at a corner of an obstacle added / moved in that transaction. "
-              "Route validity is judged against shapes; junction obstacle boxes are used in the DIVERGE-level graph "
+              "Route validity is always judged against the real shapes (never the buffered routing polygons). An invalid "
+              "route is classed through-buffer-owner only if EVERY shape it crosses has an endpoint of that connector "
+              "strictly inside its routing polygon (shape grown by shapeBufferDistance) but outside the shape - the "
+              "clean-tree `contains` exemption; any other crossed shape makes it through-interior (strict). The graph "
+              "audit counts, but does not flag, visibility edges whose only crossed shapes are such buffer owners. "
+              "junction obstacle boxes are used in the DIVERGE-level graph "
               "audit and, for polyline routes, only to recognise a route running through the DIAGONAL of a junction "
               "box (same newBlockingShape defect as for shapes, known finding C06-block-diagonal); orthogonal routes "
               "legitimately cross free-floating junctions. An invalid route is not cost-compared. Within one "
@@ -45,7 +50,12 @@ TECHNIQUE = ("Lean 4 refinement proof of the action-queue state machine (invaria
              "theorem) + exact rational route / cost / graph checkers with soundness theorem + correspondence harness "
              "with a from-scratch router as oracle")
 RULE = ("histories of 3-25 further calls after a set-up of 2-10 rectangles, 0-2 junctions, 1-6 connectors on an "
-        "integer grid; 10 generator classes cycled by case index: unblock-untouched (blocker that the route does not "
+        "integer grid; 12 generator classes cycled by case index: buffer-endpoint (shapeBufferDistance 4 or 8, a free "
+        "endpoint outside a shape S but inside its buffer zone; S is moved between the endpoints; in a later "
+        "transaction an edge from that endpoint is recomputed: a shape is added behind S, or the recorded blocker of "
+        "the straight line is deleted / moved away - a stale Router::contains entry would let the edge ignore S), "
+        "buffer-endpoint-behind (same endpoint, other end behind S: fingerprints the clean-tree finding that the "
+        "buffer-zone owner is exempted as a blocker), unblock-untouched (blocker that the route does not "
         "touch is deleted / moved away), unblock-one-side (a thin bar pokes into a big slab W - the only class with two "
         "overlapping shapes; the shortcut that opens when W is deleted / moved relatively / absolutely enters and leaves "
         "the vacated region through ONE side of W, each of the four sides in turn, W's polygon starting at each of its "
@@ -54,7 +64,9 @@ RULE = ("histories of 3-25 further calls after a set-up of 2-10 rectangles, 0-2 
         "block-diagonal (obstacle moved so that a route runs through two opposite corners), txn-off-pending, "
         "rand-poly, rand-orth, rand-poly-off, rand-orth-off (random calls biased to shapes touched by routes or "
         "blocking a straight line; several moves of one shape per transaction, add+move, move+delete, re-add at the "
-        "same place, endpoint moves, no-op transactions, toggling setTransactionUse); segmentPenalty in {0,10,50}. "
+        "same place, endpoint moves, no-op transactions, toggling setTransactionUse); segmentPenalty in {0,10,50}; "
+        "shapeBufferDistance 4 in a quarter of the rand-poly histories (random placement then keeps endpoints out of "
+        "buffer zones and routing polygons disjoint). "
         "500 histories quick / 4000 thorough, each in a forked child (an abort inside libavoid is replayed last "
         "and reported as CRASH without losing the other histories). "
         "A case is non-trivial if >= 2 processing points were checked and some compared route has a bend.")
